@@ -313,19 +313,23 @@ def check_result(plan, res, out, refs, R):
 
 def check_models(res, bg, out, sigs, fs, f_range, R):
     models = bg.models
-    if not isinstance(models, list) or len(models) != R or len(bg) != R:
-        res.violate('models-mismatch', 'length', 'models has length %s, expected %d'
-                    % (len(models) if hasattr(models, '__len__') else '?', R))
+    try:
+        n_models, n_iter = len(models), len(list(bg))
+    except Exception:
+        n_models = n_iter = -1
+    if n_models != R or len(bg) != R or n_iter != R:
+        res.violate('models-mismatch', 'length', 'models has length %s, expected %d' % (n_models, R))
         return
-    for i, m in enumerate(bg):
-        if m is not bg[i] or m is not models[i]:
-            res.violate('models-mismatch', 'iteration', 'iteration / indexing disagree at %d' % i)
-            return
-        d = diff(m.df_features, out[i]) or diff(np.asarray(m.sig), sigs[i])
-        if d:
-            res.violate('models-mismatch', 'mirror', 'models[%d] does not mirror df_features[%d]/sigs[%d]: %s'
-                        % (i, i, i, d))
-            return
+    # position by position, through every access path (attribute, indexing, iteration); only
+    # contents are compared - whether the same object comes back twice is not part of the property
+    for i, m_it in enumerate(bg):
+        for how, m in (('models[%d]' % i, models[i]), ('group[%d]' % i, bg[i]), ('iteration item %d' % i, m_it)):
+            d = diff(m.df_features, out[i]) or diff(np.asarray(m.sig), sigs[i])
+            if d:
+                res.violate('models-mismatch', 'mirror', '%s does not mirror df_features[%d]/sigs[%d]: %s'
+                            % (how, i, i, d))
+                return
+        m = models[i]
         if m.fs != fs or tuple(m.f_range) != tuple(f_range) or m.burst_method != bg.burst_method \
                 or m.center_extrema != bg.center_extrema or m.return_samples != bg.return_samples:
             res.violate('models-mismatch', 'settings', 'models[%d] settings differ from the group\'s' % i)
